@@ -230,6 +230,77 @@ example : run (ompTaskFixed false (fun _ => true)) ⟨false, false, false⟩ = (
 example : run (ompTaskPinned true (fun _ => true)) ⟨false, false, false⟩ = (⟨true, true, false⟩, .refused) := by
   decide
 
+/-! ### AlgTrans / LFRicAlgTrans -/
+
+theorem noRefuse_seqCalls (l : List (Step S)) : ∀ (P : S → Prop),
+    (∀ s, P s → l.all (fun t => t.valid s) = true) →
+    (∀ t ∈ l, ∀ u ∈ l, ∀ s, u.valid (t.mutate s) = u.valid s) →
+    NoRefuse (seqCalls l) P := by
+  induction l with
+  | nil => intros; trivial
+  | cons t rest ih =>
+    intro P hP hinv
+    simp only [seqCalls, NoRefuse, Step.prog, validateThen]
+    refine ⟨?_, ?_⟩
+    · intro s hs
+      refine ⟨?_, trivial⟩
+      rintro x rfl
+      have := hP x hs
+      simp only [List.all_cons, Bool.and_eq_true] at this
+      exact this.1
+    · apply ih
+      · rintro s' ⟨s, hs, rfl⟩
+        have h := hP s hs
+        simp only [List.all_cons, Bool.and_eq_true] at h
+        simp only [run, h.1, if_true]
+        rw [List.all_eq_true] at h ⊢
+        intro u hu
+        rw [hinv t (List.mem_cons_self ..) u (List.mem_cons_of_mem _ hu)]
+        exact h.2 u hu
+      · intro a ha u hu
+        exact hinv a (List.mem_cons_of_mem _ ha) u (List.mem_cons_of_mem _ hu)
+
+def C26_AlgTrans_pinned_statement : Prop :=
+  ∀ (v : AlgState → Bool) (invokes : List (Step AlgState)), Atomic (algTransPinned v invokes)
+
+/-- Pinned code: the first invoke is raised, the second is refused — the tree keeps the raised first invoke. -/
+theorem C26_AlgTrans_pinned_counterexample : ¬ C26_AlgTrans_pinned_statement := by
+  intro h
+  have := h (fun _ => true)
+    [⟨fun _ => true, fun s => { s with first := true }⟩, ⟨fun _ => false, fun s => { s with second := true }⟩]
+    ⟨false, false⟩ (by decide)
+  revert this
+  decide
+
+/-- Pinned code is atomic when there is at most one invoke call. -/
+theorem C26_AlgTrans_pinned_partial (v : S → Bool) (t : Step S) : Atomic (algTransPinned v [t]) := by
+  intro s hr
+  simp only [algTransPinned, validateThen, seqCalls, Step.prog, run] at hr ⊢
+  by_cases hv : v s = true
+  · by_cases ht : t.valid s = true
+    · simp [hv, ht] at hr
+    · have ht' : t.valid s = false := by simpa using ht
+      simp [hv, ht']
+  · simp [hv]
+
+/-- Fixed code: atomic for any number of invokes, provided raising one invoke does not change the validity of
+    the others (each nested validate only looks at its own call). -/
+theorem C26_AlgTrans (v : S → Bool) (invokes : List (Step S))
+    (hinv : ∀ t ∈ invokes, ∀ u ∈ invokes, ∀ s, u.valid (t.mutate s) = u.valid s) :
+    Atomic (algTransFixed v invokes) := by
+  apply C26_atomic_validate_first
+  apply noRefuse_seqCalls _ _ _ hinv
+  intro s hs
+  simp only [Bool.and_eq_true] at hs
+  exact hs.2
+
+example : run (algTransFixed (fun _ => true)
+    [⟨fun _ => true, fun s : AlgState => { s with first := true }⟩, ⟨fun _ => false, fun s => { s with second := true }⟩])
+    ⟨false, false⟩ = (⟨false, false⟩, .refused) := by decide
+example : run (algTransFixed (fun _ => true)
+    [⟨fun _ => true, fun s : AlgState => { s with first := true }⟩, ⟨fun _ => true, fun s => { s with second := true }⟩])
+    ⟨false, false⟩ = (⟨true, true⟩, .accepted) := by decide
+
 /-! ### ArrayReductionBaseTrans -/
 
 def C26_ArrayReduction_pinned_statement : Prop :=
